@@ -321,8 +321,8 @@ def sweep(req, A, S):
         from pyunicorn.core import InteractingNetworks
         net = InteractingNetworks(adjacency=A[0], directed=False, silence_level=3)
         n = A[0].shape[0]
-        n1 = list(range(n // 2))
-        n2 = list(range(n // 2, n))
+        n1 = kw.get("n1", list(range(n // 2)))
+        n2 = kw.get("n2", list(range(n // 2, n)))
         for m in ("cross_link_density", "cross_degree", "cross_closeness",
                   "cross_betweenness", "cross_local_clustering", "cross_global_clustering",
                   "cross_transitivity", "cross_average_path_length", "nsi_cross_degree",
